@@ -1,5 +1,5 @@
 (** * C07 — caching, closing documents and cache eviction are invisible.  Statements only. *)
-From PLS Require Import Check.C07 Proofs.Basics Proofs.CacheValid Proofs.ImportClosure Proofs.WarmCold.
+From PLS Require Import Check.C07 Proofs.Basics Proofs.CacheValid Proofs.ImportClosure Proofs.WarmCold Proofs.WarmCycles.
 
 (** (1)+(2) no memo entry survives a state change: after ANY analysis (clean or fresh,
     parsable or not) and after a close, every entry of the available-fixtures and
@@ -66,7 +66,20 @@ Theorem C07_every_answer_equals_the_cold_answer :
 Proof. exact warm_equals_cold_everywhere. Qed.
 Print Assumptions C07_every_answer_equals_the_cold_answer.
 
-(** not covered by (6): the cycle memo (its own version test, C16/C19) and [mark_plugin]
+(** (7) the cycle memo as well: in every state reached by analyses, closes, the queries above
+    AND cycle-detection queries (each leaving its memo entry and the import-memo entries of the
+    resolutions it performs), in any interleaving, all four memoised queries answer as with
+    every memo cleared *)
+Theorem C07_every_answer_equals_the_cold_answer_with_cycle_queries :
+  forall dk roots s, reached2 dk roots s ->
+    (forall flt F n, closest_with dk roots s flt F n = closest_with dk roots (cold s) flt F n) /\
+    (forall n file, is_imported dk roots s n file = is_imported dk roots (cold s) n file) /\
+    (forall F, available dk roots s F = available_cold dk roots (cold s) F) /\
+    cycles dk roots s = cycles_cold dk roots (cold s).
+Proof. exact warm_equals_cold_everywhere2. Qed.
+Print Assumptions C07_every_answer_equals_the_cold_answer_with_cycle_queries.
+
+(** not covered by (6), (7): [mark_plugin]
     (it changes no answer by itself; the plugin flag is read at analysis time).
 
     Second sentence of the property (closing an unmodified document never changes answers) is FALSE of
@@ -103,6 +116,23 @@ Proof.
   split; [apply r_query; repeat apply r_analyze; apply r_init|].
   split; [vm_compute; discriminate|]. eexists. eexists. split; [vm_compute; reflexivity|]. split; vm_compute; reflexivity.
 Qed.
+
+(** non-vacuity of (7): a reached state whose cycle memo holds a CURRENT entry, asked again *)
+Definition cyc_state := post_cycles on_disk [] warm_state.
+Example C07_reached_state_with_current_cycle_entry :
+  reached2 on_disk [] cyc_state /\ cyc_hit cyc_state <> None /\ reached2 on_disk [] (post_cycles on_disk [] cyc_state).
+Proof.
+  assert (R : reached2 on_disk [] cyc_state).
+  { apply r2_cycles. apply r2_query. repeat apply r2_analyze. apply r2_init. }
+  split; [exact R|]. split; [vm_compute; discriminate|]. now apply r2_cycles.
+Qed.
+
+Check C07_every_answer_equals_the_cold_answer_with_cycle_queries :
+  forall dk roots s, reached2 dk roots s ->
+    (forall flt F n, closest_with dk roots s flt F n = closest_with dk roots (cold s) flt F n) /\
+    (forall n file, is_imported dk roots s n file = is_imported dk roots (cold s) n file) /\
+    (forall F, available dk roots s F = available_cold dk roots (cold s) F) /\
+    cycles dk roots s = cycles_cold dk roots (cold s).
 
 Check C07_every_answer_equals_the_cold_answer :
   forall dk roots s, reached dk roots s ->
